@@ -9,6 +9,8 @@ def tok_text(t):
     k = t['t']
     if k in ('ID', 'INT', 'NUM', 'DOTID'):
         return t['v']
+    if k == 'BININT':       # payload = value; written as a quoted bit string, zero padded to 2 bits
+        return "'%s'" % format(int(t['v']), 'b').zfill(2)
     if k == 'BC':
         return '/* c */' if t['v'] == '0' else '/* c\nc */'
     return LIT.get(k, k)
